@@ -842,6 +842,9 @@ pub fn xworker(id: &str, tier: &str, seed: u64, w: u64, n: u64) -> i32 {
         } else if (i as usize) < corpus.len() {
             let (p, s, a) = &corpus[i as usize];
             (format!("corpus:{p}"), s.clone(), None, a.clone(), false)
+        } else if i % 12 == 7 {
+            let (k, s, a) = crate::funtemplates::pick(&mut rng);
+            (k, s, None, a, false)
         } else {
             let cfg = FunCfg::swarm(&mut rng, if tier == "thorough" { 120 } else { 60 });
             let p = fungen::generate(&mut rng, &cfg);
